@@ -2,7 +2,7 @@
 import random
 
 STATES = {"str": ["q0", "q1", "q2", "q3"], "int": [0, 1, 2, 3], "short": ["q", "q0", "q1", "q00"],
-          "graph": ["q0", "x y", "starting_0", 7], "mixed": [1, "1", 2, "2"]}
+          "graph": ["q0", "starting_q0", "x y", 7], "mixed": [1, "1", 2, "2"]}
 INS = ["a", "b"]
 OUTS = ["x", "y", "xy", 1, "1"]      # ["x","y"] vs ["xy"], [1] vs ["1"]: equal when concatenated as text
 
